@@ -248,6 +248,11 @@ func (p *Prog) indexSpecs() error {
 							p.ifaceContracts[typeName(o.Type())+"."+key[i+1:]] = fc
 							continue
 						}
+						// contract of a named function type: T.call (applies to every call through a value of static type T)
+						if _, isSig := o.Type().Underlying().(*types.Signature); isSig && key[i+1:] == "call" {
+							p.ifaceContracts[typeName(o.Type())+".call"] = fc
+							continue
+						}
 					}
 				}
 				return fmt.Errorf("%s:%d: contract target %q not found in package %s (anchor lost)", fc.File, fc.Line, key, path)
